@@ -287,6 +287,64 @@ func vc20reference(s string) (val *big.Int, fracTerms int, ok bool) {
 	return total, fracTerms, true
 }
 
+// vc20daysToHours rewrites every day term "<number>d" as the exactly equal hour term (24 x the decimal
+// number, still a finite decimal), so that time.ParseDuration - quirks included - can serve as the reference
+// for texts with the day unit: "differs only by additionally understanding the day unit".
+func vc20daysToHours(s string) (string, bool) {
+	var sb strings.Builder
+	if s != "" && (s[0] == '-' || s[0] == '+') {
+		sb.WriteByte(s[0])
+		s = s[1:]
+	}
+	if s == "" {
+		return "", false
+	}
+	for s != "" {
+		i := 0
+		for i < len(s) && (s[i] == '.' || (s[i] >= '0' && s[i] <= '9')) {
+			i++
+		}
+		num := s[:i]
+		s = s[i:]
+		j := 0
+		for j < len(s) && s[j] != '.' && !(s[j] >= '0' && s[j] <= '9') {
+			j++
+		}
+		unit := s[:j]
+		s = s[j:]
+		if num == "" || unit == "" || strings.Count(num, ".") > 1 {
+			return "", false
+		}
+		if unit != "d" {
+			sb.WriteString(num)
+			sb.WriteString(unit)
+			continue
+		}
+		intPart, frac := num, ""
+		if k := strings.IndexByte(num, '.'); k >= 0 {
+			intPart, frac = num[:k], num[k+1:]
+		}
+		if intPart == "" && frac == "" {
+			return "", false
+		}
+		n := new(big.Int)
+		if intPart+frac != "" {
+			n.SetString(intPart+frac, 10)
+		}
+		n.Mul(n, big.NewInt(24))
+		digits := n.String()
+		if len(frac) > 0 {
+			for len(digits) <= len(frac) {
+				digits = "0" + digits
+			}
+			digits = digits[:len(digits)-len(frac)] + "." + digits[len(digits)-len(frac):]
+		}
+		sb.WriteString(digits)
+		sb.WriteString("h")
+	}
+	return sb.String(), true
+}
+
 func vc20hasDayUnit(s string) bool {
 	// a 'd' that is a unit token: preceded by a digit or '.', i.e. not part of another word
 	for i := 0; i < len(s); i++ {
@@ -373,29 +431,37 @@ func TestVerifC20(t *testing.T) {
 				}
 				return
 			}
-			tol := big.NewInt(int64(fracTerms))
-			lo, hi := new(big.Int).Sub(ref, tol), new(big.Int).Add(ref, tol)
-			maxV, minV := big.NewInt(math.MaxInt64), big.NewInt(math.MinInt64)
+			tol := big.NewInt(int64(fracTerms) + 1)
+			maxV := new(big.Int).Lsh(big.NewInt(1), 63)
+			nearEdge := new(big.Int).Sub(new(big.Int).Abs(ref), maxV)
+			nearEdge.Abs(nearEdge)
+			edge := nearEdge.Cmp(new(big.Int).Add(tol, big.NewInt(1))) <= 0 // the exact value lies on the overflow boundary: either decision is fine
+			tr, trOK := vc20daysToHours(s)
+			if !trOK {
+				return
+			}
+			std2, err2 := time.ParseDuration(tr)
+			cas["with_days_rewritten_as_hours"] = strconv.Quote(tr)
 			switch {
-			case lo.Cmp(maxV) > 0 || hi.Cmp(minV) < 0: // certainly out of range
-				if ourErr == nil {
-					rep.viol(idx, "day-unit", "C20/day-unit/overflow-accepted", fmt.Sprintf("ParseDuration(%q) = %d ns, the exact value %s overflows", s, int64(ours), ref.String()), cas)
-				}
-			case hi.Cmp(maxV) <= 0 && lo.Cmp(minV) >= 0: // certainly in range
-				// note: like time.ParseDuration, intermediate sums are checked against 2^63, so in-range totals are accepted
-				if ourErr != nil {
-					// the standard parser also rejects a string whose single terms overflow before the sign is applied; mirror that leniency only for magnitudes at the very edge
-					if new(big.Int).Abs(ref).Cmp(new(big.Int).Sub(maxV, tol)) >= 0 {
-						break
-					}
-					rep.viol(idx, "day-unit", "C20/day-unit/rejected", fmt.Sprintf("ParseDuration(%q) rejects (%v), the exact value is %s ns", s, ourErr, ref.String()), cas)
+			case err2 == nil && ourErr != nil:
+				if !edge {
+					rep.viol(idx, "day-unit", "C20/day-unit/rejected", fmt.Sprintf("ParseDuration(%q) rejects (%v); time.ParseDuration accepts the same text with days written as hours (%q = %d ns)", s, ourErr, tr, int64(std2)), cas)
 					return
 				}
-				if got := big.NewInt(int64(ours)); got.Cmp(lo) < 0 || got.Cmp(hi) > 0 {
-					rep.viol(idx, "day-unit", "C20/day-unit/value", fmt.Sprintf("ParseDuration(%q) = %d ns, the exact value is %s ns (tolerance %d)", s, int64(ours), ref.String(), fracTerms), cas)
+			case err2 != nil && ourErr == nil:
+				if !edge {
+					rep.viol(idx, "day-unit", "C20/day-unit/accepted", fmt.Sprintf("ParseDuration(%q) = %d ns; time.ParseDuration rejects the same text with days written as hours (%q: %v); exact value %s", s, int64(ours), tr, err2, ref.String()), cas)
+					return
+				}
+			case err2 == nil && ourErr == nil:
+				diff := new(big.Int).Sub(big.NewInt(int64(ours)), big.NewInt(int64(std2)))
+				if diff.Abs(diff).Cmp(tol) > 0 {
+					rep.viol(idx, "day-unit", "C20/day-unit/value", fmt.Sprintf("ParseDuration(%q) = %d ns; time.ParseDuration of the same text with days written as hours (%q) = %d ns (tolerance %s ns for fractional terms)", s, int64(ours), tr, int64(std2), tol.String()), cas)
 					return
 				}
 				rep.add("day_unit_values_confirmed", 1)
+			default:
+				rep.add("day_unit_rejections_confirmed", 1)
 			}
 		}
 		if h := vc20hash("str", s); h%ntEvery == 0 {
